@@ -206,9 +206,9 @@ def run(tier, seed):
     total = Result()
     rng = random.Random(seed)
     if tier == 'quick':
-        lens, nrand, variants = [1, 2, 3, 4, 7], 1500, [('release', 1.0), ('dev', 0.5), ('nightly', 0.5)]
+        lens, nrand, variants = [1, 2, 3, 4, 7], 1500, [('release', 1.0), ('dev', 0.5), ('nightly', 0.5), ('plain', 0.3)]
     else:
-        lens, nrand, variants = [1, 2, 3, 4, 7], 20000, [('release', 1.0), ('dev', 1.0), ('nightly', 1.0)]
+        lens, nrand, variants = [1, 2, 3, 4, 7], 20000, [('release', 1.0), ('dev', 1.0), ('nightly', 1.0), ('plain', 0.3)]
     exhaustive = {L: nondecreasing_vectors(L + 1) for L in lens}
     try:
         for variant, frac in variants:
